@@ -745,8 +745,20 @@ pub fn c20(tier: Tier) -> i32 {
         let caps: Vec<usize> = [3usize, 8, 16, data.len() + 2].to_vec();
         for cap in caps {
             // fault = None, or one transient error at source call 0..5
-            for fault_at in std::iter::once(None).chain((0..5).map(Some)) {
-                let mk_src = || Src::new(rc.clone(), Chunk::All, IntPat::None, fault_at.map(|at| Fault { at, kind: FaultKind::Other }));
+            // no failure, one transient failure at source call 0..4, or two at calls a < b <= 6
+            let mut fault_sets: Vec<(Option<usize>, Option<usize>)> = vec![(None, None)];
+            fault_sets.extend((0..5).map(|a| (Some(a), None)));
+            for a in 0..6 {
+                for b in a + 1..7 {
+                    fault_sets.push((Some(a), Some(b)));
+                }
+            }
+            for (fault_at, second) in fault_sets {
+                let mk_src = || {
+                    let mut s = Src::new(rc.clone(), Chunk::All, IntPat::None, fault_at.map(|at| Fault { at, kind: FaultKind::Other }));
+                    s.more_faults = second.into_iter().collect();
+                    s
+                };
                 let mut problems: Vec<String> = vec![];
                 macro_rules! own {
                     ($m:ident) => {{
@@ -771,6 +783,12 @@ pub fn c20(tier: Tier) -> i32 {
                             .collect();
                         // the size hint taken before step i brackets the number of items still to come
                         let ended = steps.iter().position(|s| s == "None").map_or(false, |e| steps[e..].iter().all(|s| s == "None"));
+                        // once the end was reported it stays reported (also when source errors came before)
+                        if let Some(e) = steps.iter().position(|s| s == "None") {
+                            if let Some(later) = steps[e..].iter().position(|s| s != "None") {
+                                problems.push(format!("{} records(): the end was reported at step {} but step {} yields {}", stringify!($m), e, e + later, steps[e + later]));
+                            }
+                        }
                         for (name, hs) in [("records()", &hints), ("into_records()", &hints2)] {
                             for (i, &(lo, hi)) in hs.iter().enumerate() {
                                 let to_come = steps[i..].iter().filter(|s| *s != "None").count();
@@ -821,9 +839,9 @@ pub fn c20(tier: Tier) -> i32 {
                     l.violation(Violation {
                         property: "C20".into(),
                         sig: format!("{}|{}", format.name(), class),
-                        detail: format!("input {:?} cap {} source error at call {:?}: {}", esc(data), cap, fault_at, p),
+                        detail: format!("input {:?} cap {} source error at call {:?} (second at {:?}): {}", esc(data), cap, fault_at, second, p),
                         weight: (data.len() * 100_000 + cap.min(99_999)) as u64,
-                        replay: json!({"kind": "iters", "format": format.name(), "input": data, "input_escaped": esc(data), "cap": cap, "fault_at": fault_at}),
+                        replay: json!({"kind": "iters", "format": format.name(), "input": data, "input_escaped": esc(data), "cap": cap, "fault_at": fault_at, "second_fault_at": second}),
                     });
                 }
             }
@@ -921,7 +939,7 @@ pub fn c20(tier: Tier) -> i32 {
         Report {
             property: "C20".into(),
             tier: tier.name().into(),
-            rule: format!("every FASTA record with m = 0..{} sequence lines over the line menu {{x, empty, xy, x<CR>y}} x LF/CRLF x final terminator x followed by another record or not, obtained from a record set under 3 capacities: ALL 2^(m+2) sequences of next/next_back steps on seq_lines() with len()/size_hint() checked after every step, items, meeting ends, sticky end; adaptor menu (enumerate().rev(), rev().enumerate(), zip, skip(0..n+1), collect, rposition, len) on the iterator after every (front, back) prefix; RecordSetIter (both formats) size hint + fused, count(), last(), nth(j) and skip(j) for j = 0..len+1 with the state they leave behind, also on ONE set reused over all batches (plain loop; exact(3),exact(1),...; exact(2),(3),(1),...) at every (third) capacity so that later, smaller batches carry stale entries; RecordsIter / RecordsIntoIter end sticky incl. after an error (FASTQ defect family, {} files); records()/into_records() size_hint() before every one of 10 steps brackets the items still to come, skip(k), nth(k), count() against plain stepping on valid and invalid inputs and inputs with 1..4 leading/trailing blank lines (LF/CRLF), also with one transient source error at call 0..4", max_lines, fq.len()),
+            rule: format!("every FASTA record with m = 0..{} sequence lines over the line menu {{x, empty, xy, x<CR>y}} x LF/CRLF x final terminator x followed by another record or not, obtained from a record set under 3 capacities: ALL 2^(m+2) sequences of next/next_back steps on seq_lines() with len()/size_hint() checked after every step, items, meeting ends, sticky end; adaptor menu (enumerate().rev(), rev().enumerate(), zip, skip(0..n+1), collect, rposition, len) on the iterator after every (front, back) prefix; RecordSetIter (both formats) size hint + fused, count(), last(), nth(j) and skip(j) for j = 0..len+1 with the state they leave behind, also on ONE set reused over all batches (plain loop; exact(3),exact(1),...; exact(2),(3),(1),...) at every (third) capacity so that later, smaller batches carry stale entries; RecordsIter / RecordsIntoIter end sticky incl. after an error (FASTQ defect family, {} files); records()/into_records() size_hint() before every one of 10 steps brackets the items still to come, skip(k), nth(k), count() against plain stepping on valid and invalid inputs and inputs with 1..4 leading/trailing blank lines (LF/CRLF), also with one transient source error at call 0..4 or two at calls a < b <= 6 (the end, once reported, stays reported)", max_lines, fq.len()),
             exhaustive: true,
             assumptions: vec!["line contents are drawn from a menu; the iterator logic depends only on the number of lines".into()],
             extra: json!({"states_note": "states = (record, consumed-front, consumed-back) triples; transitions = iterator steps executed"}),
